@@ -380,7 +380,94 @@ def run_paths(prop, tier, deadline):
     return outcome
 
 
+# ------------------------------------------------------------------------------- C13, C14, C15
+IO_GROUPS = {"dir_NoLabel": 0, "und_NoLabel": 0, "dir_int": 0, "und_int": 0, "dir_string": 1, "und_string": 1, "dir_double": 1, "und_double": 1,
+             "dir_u8": 2, "und_i8": 2, "dir_i16": 2, "und_u32": 2, "dir_i64": 3, "und_u64": 3, "dir_float": 3, "und_char": 3, "-": 0}
+
+
+def io_build(group, san=False, init="pattern"):
+    if san:
+        return Build("io_san_%s_g%d" % (init, group), "harness/io.cpp", compiler="clang++",
+                     flags=SAN_FLAGS + ["-ftrivial-auto-var-init=" + init, "-DGROUP=%d" % group] +
+                     (["-enable-trivial-auto-var-init-zero-knowing-it-will-be-removed-from-clang"] if init == "zero" else []))
+    return Build("io_g%d" % group, "harness/io.cpp", flags=["-O2", "-DGROUP=%d" % group])
+
+
+def P(part, config="-", **kw):
+    args = ["--part", part, "--config", config]
+    for k, v in kw.items():
+        args += ["--" + k, str(v)]
+    return (config, args)
+
+
+IO_PLANS = {
+    "C13": {
+        "quick": [P("roundtrip", c, len=3) for c in ("dir_NoLabel", "und_NoLabel", "dir_int", "und_int")] + [P("roundtrip", c, len=2) for c in ("dir_string", "und_string", "dir_double", "und_double")] +
+                 [P("format", len=2), P("names", len=3)],
+        "thorough": [P("roundtrip", c, len=4) for c in ("dir_NoLabel", "und_NoLabel")] + [P("roundtrip", c, len=3) for c in ("dir_int", "und_int", "dir_string", "und_string", "dir_double", "und_double")] +
+                    [P("format", len=3), P("names", len=4)],
+    },
+    "C14": {
+        "quick": [P("roundtrip", c, len=3) for c in ("dir_NoLabel", "und_NoLabel")] +
+                 [P("roundtrip", c, len=2) for c in ("dir_int", "und_int", "dir_u8", "und_i8", "dir_i16", "und_u32", "dir_i64", "und_u64", "dir_float", "und_char", "dir_double", "und_double")] + [P("unopenable")],
+        "thorough": [P("roundtrip", c, len=4) for c in ("dir_NoLabel", "und_NoLabel")] +
+                    [P("roundtrip", c, len=3) for c in ("dir_int", "und_int", "dir_u8", "und_i8", "dir_i16", "und_u32", "dir_i64", "und_u64", "dir_float", "und_char", "dir_double", "und_double")] + [P("unopenable")],
+    },
+    "C15": {
+        "quick": [P("cuts", c, len=3) for c in ("dir_NoLabel", "und_NoLabel")] + [P("cuts", c, len=2) for c in ("dir_u8", "dir_int", "und_int", "und_double", "dir_i64", "dir_i16")] +
+                 [P("text", len=3)] + [P("bytes", "dir_NoLabel", len=9), P("bytes", "und_NoLabel", len=9), P("bytes", "dir_u8", len=10), P("bytes", "dir_i16", len=11)],
+        "thorough": [P("cuts", c, len=4) for c in ("dir_NoLabel", "und_NoLabel")] + [P("cuts", c, len=3) for c in ("dir_u8", "dir_int", "und_int", "und_double", "dir_i64", "dir_i16", "und_u64", "dir_float")] +
+                    [P("text", len=4, shard=k, shards=8) for k in range(8)] + [P("bytes", "dir_NoLabel", len=17), P("bytes", "und_NoLabel", len=17), P("bytes", "dir_u8", len=18), P("bytes", "dir_i16", len=13), P("bytes", "und_int", len=13)],
+    },
+}
+IO_RULE = {
+    "C13": "case = one graph (every sequence of <= L insertions of distinct pairs on 3 vertices x every label assignment from 3 values incl. the default/empty one, in graphs of 0, 3 and 4 vertices) written with writeTextEdgeList "
+           "(explicit codec and default formatter) and read back; or one well-formed file of <= 2-3 lines from a ~90-line menu (comments, blanks/tabs before/between/after, one- and multi-word labels); or one file for the "
+           "vertex-name loader (every sequence of <= 3-4 edges over names a, b, ab, 7, #x with leading blanks). Non-trivial = at least two edges / lines.",
+    "C14": "case = one graph (same sequence enumeration) x label type (none, 1/2/4/8-byte integers, float, double; label values with all-distinct bytes): file length, bytes vs. an independent shift-based little-endian "
+           "encoder in edges() order, load (size, == after resize), load twice, every permutation of <= 4 records; unopenable paths for every writer and loader; swapBytes = byte reversal. Non-trivial = at least two records.",
+    "C15": "case = (written binary file, cut offset) for every offset 0..len of every file of the sequence enumeration; every token string up to length 3-4 over a 17-token alphabet (digits, -1, 12-digit number, +1, 1.5, x, #, "
+           "blank, tab, LF, CR, NUL, 0xFF, the writer's header line) plus header+3-line files offered to five text loader instantiations; every byte string up to 9-18 bytes over a per-position alphabet offered as binary. "
+           "ASan+UBSan build with -ftrivial-auto-var-init=pattern. Non-trivial = cut strictly inside a record / multi-token text.",
+}
+
+
+def run_io(prop, tier, deadline):
+    import shutil
+    outcome = Outcome(prop, tier, "fault_enumeration" if prop == "C15" else "exploration")
+    plan = IO_PLANS[prop][tier]
+    san = prop == "C15"
+    builds = {g: io_build(g, san) for g in set(IO_GROUPS[c] for c, _ in plan)}
+    built = build_all(list(builds.values()))
+    if compile_failures(outcome, built):
+        outcome.coverage = {"evaluations": 1, "distinct_nontrivial": 0, "rule": "harness did not compile", "samples": ["compile failure"]}
+        return outcome
+    workdir = os.path.join(build_dir(), "work-%s-%s-%d" % (prop, tier, os.getpid()))
+    jobs = []
+    for k, (cfg, args) in enumerate(plan):
+        tmpd = os.path.join(workdir, "t%d" % k)
+        os.makedirs(tmpd, exist_ok=True)
+        jobs.append(Job(builds[IO_GROUPS[cfg]], ["--prop", prop, "--tier", tier, "--tmpdir", tmpd] + args, label=" ".join(args), timeout=deadline + 300, deadline=deadline, env=SAN_ENV if san else {}))
+    run_jobs(jobs, built, workdir)
+    results = collect(outcome, jobs, built)
+    shutil.rmtree(workdir, ignore_errors=True)
+    per = {r.get("config", "?"): r.get("counters", {}).get("cases", 0) for r in results}
+    outcome.coverage = {
+        "evaluations": sum_counter(results, "cases"),
+        "distinct_nontrivial": sum_counter(results, "nontrivial_cases"),
+        "rule": IO_RULE[prop],
+        "samples": gather_samples(results, 6),
+        "cases_per_configuration": per,
+    }
+    if san:
+        outcome.coverage["sanitizers"] = "clang++ -fsanitize=address,undefined -fno-sanitize-recover=undefined -ftrivial-auto-var-init=pattern; every worker is a separate process with abort_on_error and max_allocation_size_mb=1024"
+    outcome.assumptions = ["files are written under the check's build directory", "bounded scope as listed", "little-endian host: the big-endian branch of the binary codec cannot be executed here"]
+    return outcome
+
+
 PLANS = {}
+for _p in IO_PLANS:
+    PLANS[_p] = (lambda prop: (lambda tier, deadline: run_io(prop, tier, deadline)))(_p)
 for _p in PATHS_PLANS:
     PLANS[_p] = (lambda prop: (lambda tier, deadline: run_paths(prop, tier, deadline)))(_p)
 for _p in SHAPES_PLANS:
@@ -391,7 +478,7 @@ for _p in E1_PLANS:
 
 
 def all_builds():
-    bs = [e1_build(g) for g in range(8)] + [c07_build(g) for g in range(10)] + [shapes_build(g) for g in range(9)] + [paths_build(g) for g in range(4)]
+    bs = [e1_build(g) for g in range(8)] + [c07_build(g) for g in range(10)] + [shapes_build(g) for g in range(9)] + [paths_build(g) for g in range(4)] + [io_build(g) for g in range(4)] + [io_build(g, True) for g in range(4)]
     return bs
 
 
